@@ -115,7 +115,7 @@ impl Property for C04 {
         ]
     }
     fn plan(&self, tier: Tier) -> Plan {
-        Plan { workers: tier.pick(4, 16), cases_per_worker: tier.pick(10_000, 80_000), max_shrink_iters: 2000 }
+        Plan { workers: tier.pick(4, 16), cases_per_worker: tier.pick(100_000, 500_000), max_shrink_iters: 2000 }
     }
     fn selftest(&self) -> Result<serde_json::Value, String> {
         crate::selftest::model_vs_recorded()
